@@ -48,6 +48,8 @@ PURE_METHODS = {
 }
 # rng methods draw (they mutate the generator, which is their purpose) -- not a parameter
 # mutation in the sense of the purity rules; recorded separately by the RNG rules
+# calls whose result shares nothing with their argument
+DEEP_COPIES = {'pickle.loads', 'pickle.dumps', 'copy.deepcopy', 'deepcopy', 'loads', 'dumps'}
 RNG_METHODS = {'choice', 'integers', 'random', 'shuffle', 'permutation', 'uniform', 'normal',
                'permuted', 'bytes', 'standard_normal', 'binomial', 'poisson', 'exponential'}
 
@@ -55,11 +57,18 @@ RNG_METHODS = {'choice', 'integers', 'random', 'shuffle', 'permutation', 'unifor
 @dataclass
 class Summary:
     mut_params: Set[str] = field(default_factory=set)      # names of params possibly mutated
+    # ... of which: mutated below the object itself (a store into something obtained from the
+    # parameter by attribute / subscript reads): at a call site this reaches whatever the
+    # argument holds, not only what it is
+    mut_deep: Set[str] = field(default_factory=set)
     mut_sites: Dict[str, List[Tuple[int, str]]] = field(default_factory=dict)
     global_writes: Set[str] = field(default_factory=set)
     global_sites: List[Tuple[int, str]] = field(default_factory=list)
     unknown_calls: List[Tuple[int, str]] = field(default_factory=list)
     ret_alias: Set[str] = field(default_factory=set)       # params the result may alias
+    # params whose reachable objects the (otherwise fresh) result may hold as elements or
+    # fields: `Grid([[self.objects[y][x] ..]])` is a new grid of the same cell objects
+    ret_contain: Set[str] = field(default_factory=set)
 
 
 class Effects:
@@ -94,7 +103,12 @@ class Effects:
         return getattr(f, '_qual', None) or f.qualname
 
     # ------------------------------------------------------------ aliasing
-    def roots(self, q: str, e: ast.AST, depth: int = 6, at: int = 10 ** 9) -> Set[str]:
+    def contains(self, q: str, e: ast.AST, depth: int = 6) -> Set[str]:
+        """params whose reachable objects the value of `e` may hold (see Summary.ret_contain)"""
+        return self.roots(q, e, depth, mode='contain')
+
+    def roots(self, q: str, e: ast.AST, depth: int = 6, at: int = 10 ** 9,
+              contain: bool = True, mode: str = 'alias', hops0: bool = False) -> Set[str]:
         """parameters (by name) whose reachable objects the expression may denote, for a use
         at event order `at` (a parameter rebound unconditionally before the use no longer
         denotes the caller's object)"""
@@ -102,11 +116,123 @@ class Effects:
         w = self.walks[q]
         params = set(w.params)
         out: Set[str] = set()
+        comp_env: Dict[str, ast.AST] = {}     # comprehension target -> iterated expression
+        busy: Set[Tuple[str, int]] = set()
+
+        def elem_of(it: ast.AST, d: int):
+            """an element drawn from `it` may be (part of) what `it` is or holds"""
+            rec(it, d)
+            con(it, d)
+
+        def con(x: ast.AST, d: int):
+            """params whose objects the value of `x` may hold as elements / fields"""
+            if d < 0 or not contain:
+                return
+            key = ('c', id(x))
+            if key in busy:
+                return
+            busy.add(key)
+            try:
+                if isinstance(x, ast.Name):
+                    if x.id in comp_env:
+                        con(comp_env[x.id], d - 1)
+                        return
+                    for dd in w.defs.get(x.id, []):
+                        kind, payload = dd[0], dd[1]
+                        if kind == 'value':
+                            con(payload, d - 1)
+                        elif kind in ('unpack', 'elem-unpack'):
+                            con(payload[0], d - 1)
+                        elif kind == 'elem':
+                            con(payload, d - 1)
+                    return
+                if isinstance(x, (ast.Attribute, ast.Subscript, ast.Starred)):
+                    con(x.value, d)
+                    return
+                if isinstance(x, ast.BinOp):
+                    for v in (x.left, x.right):
+                        rec(v, d)
+                        con(v, d)
+                    return
+                if isinstance(x, (ast.IfExp,)):
+                    con(x.body, d)
+                    con(x.orelse, d)
+                    return
+                if isinstance(x, ast.BoolOp):
+                    for v in x.values:
+                        con(v, d)
+                    return
+                if isinstance(x, (ast.Tuple, ast.List, ast.Set)):
+                    for v in x.elts:
+                        rec(v, d)
+                        con(v, d)
+                    return
+                if isinstance(x, ast.Dict):
+                    for v in x.values:
+                        if v is not None:
+                            rec(v, d)
+                            con(v, d)
+                    return
+                if isinstance(x, (ast.ListComp, ast.SetComp, ast.GeneratorExp, ast.DictComp)):
+                    saved = dict(comp_env)
+                    for g in x.generators:
+                        for t in ast.walk(g.target):
+                            if isinstance(t, ast.Name):
+                                comp_env[t.id] = g.iter
+                    elts = [x.value] if isinstance(x, ast.DictComp) else [x.elt]
+                    for v in elts:
+                        rec(v, d)
+                        con(v, d)
+                    comp_env.clear()
+                    comp_env.update(saved)
+                    return
+                if isinstance(x, ast.Call):
+                    fs = src(x.func)
+                    if fs in DEEP_COPIES:
+                        return
+                    args = list(x.args) + [k.value for k in x.keywords]
+                    callee = self.resolve(q, x)
+                    r = self.index.resolve_callee(f.module, x.func, f.cls)
+                    if isinstance(r, Cls):
+                        for a in args:           # a constructed object holds its arguments
+                            rec(a, d - 1)
+                            con(a, d - 1)
+                        return
+                    if callee:
+                        for tgt in callee:
+                            tq = self.qual(tgt)
+                            ts = self.summ.get(tq)
+                            if ts is None:
+                                continue
+                            binding = self.bind_args(tgt, x)
+                            for pname, arg in binding.items():
+                                if pname in ts.ret_contain:
+                                    rec(arg, d - 1)
+                                    con(arg, d - 1)
+                                if pname in ts.ret_alias:
+                                    con(arg, d - 1)
+                        return
+                    # externals (list, tuple, sorted, zip, np.array, ...): the result may
+                    # hold the elements of its arguments; a method of an unknown receiver
+                    # may hand out what the receiver holds
+                    for a in args:
+                        rec(a, d - 1)
+                        con(a, d - 1)
+                    if isinstance(x.func, ast.Attribute):
+                        con(x.func.value, d - 1)
+                    return
+            finally:
+                busy.discard(key)
 
         def rec(x: ast.AST, d: int):
             if d < 0:
                 return
+            if hops0 and not isinstance(x, (ast.Name, ast.IfExp, ast.BoolOp)):
+                return
             if isinstance(x, ast.Name):
+                if x.id in comp_env:
+                    elem_of(comp_env[x.id], d - 1)
+                    return
                 if x.id in params and not w.defs.get(x.id):
                     out.add(x.id)
                     return
@@ -127,9 +253,13 @@ class Effects:
                         rec(payload[0], d - 1)
                     elif kind == 'elem':
                         rec(payload, d - 1)
+                        con(payload, d - 1)
+                    if kind in ('unpack', 'elem-unpack'):
+                        con(payload[0], d - 1)
                 return
             if isinstance(x, (ast.Attribute, ast.Subscript, ast.Starred)):
                 rec(x.value, d)
+                con(x.value, d)          # a part of a fresh container of caller objects
                 return
             if isinstance(x, ast.IfExp):
                 rec(x.body, d)
@@ -159,7 +289,10 @@ class Effects:
                     rec(x.func.value, d)
                 return
 
-        rec(e, depth)
+        if mode == 'contain':
+            con(e, depth)
+        else:
+            rec(e, depth)
         return out
 
     # ------------------------------------------------------------ resolve
@@ -271,10 +404,13 @@ class Effects:
             if e.kind in ('store', 'attrstore', 'augstore', 'delete'):
                 t = e.target
                 base = t.value if isinstance(t, (ast.Attribute, ast.Subscript)) else t
+                shallow = self.roots(q, base, at=e.order, hops0=True)
                 for r in self.roots(q, base, at=e.order):
                     if f.name == '__init__' and r == 'self':
                         continue
                     s.mut_params.add(r)
+                    if r not in shallow:
+                        s.mut_deep.add(r)
                     s.mut_sites.setdefault(r, []).append((e.line, src(e.stmt)[:120]))
                 root = base
                 while isinstance(root, (ast.Attribute, ast.Subscript)):
@@ -291,6 +427,7 @@ class Effects:
         for e in w.events:
             if e.kind == 'return' and e.value is not None:
                 s.ret_alias |= self.roots(q, e.value)
+                s.ret_contain |= self.contains(q, e.value)
 
     def _is_module_global(self, m: Module, name: str) -> bool:
         return name in m.assigns
@@ -315,12 +452,20 @@ class Effects:
                     binding = self.bind_args(t, call)
                     for pname, arg in binding.items():
                         if pname in ts.mut_params:
-                            for r in self.roots(q, arg, at=e.order):
+                            reach = self.roots(q, arg, at=e.order)
+                            top = self.roots(q, arg, at=e.order, hops0=True)
+                            if pname in ts.mut_deep:
+                                reach = reach | self.contains(q, arg)
+                            for r in reach:
                                 if f.name == '__init__' and r == 'self':
                                     continue
                                 if r not in s.mut_params:
                                     changed = True
                                 s.mut_params.add(r)
+                                if (pname in ts.mut_deep or r not in top) and \
+                                        r not in s.mut_deep:
+                                    s.mut_deep.add(r)
+                                    changed = True
                                 site = (e.line, f'{src(call)[:100]} (callee {t.short} mutates {pname})')
                                 sites = s.mut_sites.setdefault(r, [])
                                 if site not in sites:
@@ -360,7 +505,7 @@ class Effects:
         for _ in range(30):
             changed = False
             for q in self.funcs:
-                before = len(self.summ[q].ret_alias)
+                before = len(self.summ[q].ret_alias) + len(self.summ[q].ret_contain)
                 if self._calls(q):
                     changed = True
                 # refresh return aliasing (callee ret_alias may have grown)
@@ -368,7 +513,8 @@ class Effects:
                 for e in w.events:
                     if e.kind == 'return' and e.value is not None:
                         self.summ[q].ret_alias |= self.roots(q, e.value)
-                if len(self.summ[q].ret_alias) != before:
+                        self.summ[q].ret_contain |= self.contains(q, e.value)
+                if len(self.summ[q].ret_alias) + len(self.summ[q].ret_contain) != before:
                     changed = True
             if not changed:
                 return
